@@ -89,6 +89,10 @@ class StatementSplitter:
         if unified == 'LOOP' and self._is_create and self._begin_depth > 0:
             return 1
 
+        if unified == 'END CASE':
+            self._in_case = max(0, self._in_case - 1)
+            return -1
+
         if unified in ('END IF', 'END FOR', 'END WHILE', 'END LOOP'):
             return -1
 
